@@ -424,5 +424,13 @@ func (jenny RawTypes) formatDefaultValue(fieldType ast.Type, resolvedFieldType a
 	listType := fieldType.DeepCopy()
 	listType.Nullable = false
 
-	return jenny.typeFormatter.formatType(listType) + "{" + strings.Join(tools.Map(items, formatScalar), ", ") + "}"
+	// the items are literals of the list's item type: a list of lists holds `[]int64{1, 2}`, not `[]string{1, 2}`
+	formatItem := formatScalar
+	if itemType := resolvedFieldType.AsArray().ValueType; itemType.IsArray() {
+		formatItem = func(item any) string {
+			return jenny.formatDefaultValue(itemType, itemType, item)
+		}
+	}
+
+	return jenny.typeFormatter.formatType(listType) + "{" + strings.Join(tools.Map(items, formatItem), ", ") + "}"
 }
